@@ -119,7 +119,7 @@ def run(ctx):
         for k in range(1, 4):
             state_cases(ctx, drv, exe, ctx.seed + 1000 * k, 300, st)
             if any(v[2] for v in ctx.violations): break
-    measurements(ctx, exe, ctx.seed, 1 if quick else 3)
+    measurements(ctx, exe, ctx.seed, 1 if quick else 2)
     ctx.add_cases(st['cmp'], st['n'], ['%d systems, mobilizer types seen: %s' % (st['n'], ' '.join('%s:%d' % kv for kv in sorted(st['types'].items())))])
     ctx.cov['rule'] = ('one evaluation = one scalar comparison (relative 1e-9) between an energy / momentum calculator of the implementation and the extracted per-body sum at a random '
                        'state of a random tree (1-6 bodies, all 17 mobilizer types, reversed, quaternion/Euler, free-floating or Ground-attached base, gravity + two-point and '
